@@ -69,7 +69,7 @@ fn pick_checkpoints(cps: &BTreeMap<u32, Option<u64>>, note_height: u32) -> Vec<u
 }
 
 macro_rules! view_pool {
-    ($tree:expr, $notes:expr, $leaf:expr, $bytes:expr) => {{
+    ($tree:expr, $notes:expr, $leaf:expr, $bytes:expr, $full:expr) => {{
         let tree = $tree;
         let mut cps: BTreeMap<u32, Option<u64>> = BTreeMap::new();
         tree.store()
@@ -81,11 +81,14 @@ macro_rules! view_pool {
         let mut roots = BTreeMap::new();
         // all checkpoints when there are few; otherwise the 3 lowest, the 6 highest and 5 spread ones
         let keys: Vec<u32> = cps.keys().copied().collect();
-        let sample: BTreeSet<u32> = if keys.len() <= 14 {
+        let full: bool = $full;
+        let n = keys.len();
+        let sample: BTreeSet<u32> = if n <= if full { 14 } else { 4 } {
             keys.iter().copied().collect()
-        } else {
-            let n = keys.len();
+        } else if full {
             keys.iter().take(3).chain(keys.iter().skip(n - 6)).chain((1..=5).map(|k| &keys[k * n / 6])).copied().collect()
+        } else {
+            [keys[0], keys[n / 3], keys[2 * n / 3], keys[n - 1]].into_iter().collect()
         };
         for h in sample.iter() {
             let r = match tree.root_at_checkpoint_id(&BlockHeight::from_u32(*h)) {
@@ -95,8 +98,13 @@ macro_rules! view_pool {
             roots.insert(*h, r);
         }
         let mut wit = vec![];
-        for (nid, pos, height, cm) in $notes.iter() {
-            for h in pick_checkpoints(&cps, *height) {
+        let note_iter: Vec<_> = if full { $notes.iter().collect() } else { $notes.iter().rev().take(3).collect() };
+        for (nid, pos, height, cm) in note_iter {
+            let mut picks = pick_checkpoints(&cps, *height);
+            if !full {
+                picks = picks.into_iter().rev().take(1).collect();
+            }
+            for h in picks {
                 let r = match tree.witness_at_checkpoint_id(Position::from(*pos), &BlockHeight::from_u32(h)) {
                     Ok(Some(path)) => Some($bytes(&path.root($leaf(cm)))),
                     _ => None,
@@ -117,7 +125,7 @@ fn true_root(chain: &Chain, pool: Pool, h: u32) -> [u8; 32] {
     }
 }
 
-fn check_trees(ctx: &Ctx, h: &mut Hist, st: &mut Stats, step: &str) -> Result<(), Fail> {
+fn check_trees(ctx: &Ctx, h: &mut Hist, st: &mut Stats, step: &str, full: bool) -> Result<(), Fail> {
     let chain = &h.chain;
     let ledger = &h.ledger;
     // unspent mined wallet notes per pool: (id, position, height, cm)
@@ -139,13 +147,13 @@ fn check_trees(ctx: &Ctx, h: &mut Hist, st: &mut Stats, step: &str) -> Result<()
 
     let db = h.w.tdb.db_mut();
     let sap = db
-        .with_sapling_tree_mut::<_, _, TreeErr>(|t| view_pool!(t, sap_notes, |cm: &[u8; 32]| sapling::Node::from_bytes(*cm).unwrap(), sapling_bytes))
+        .with_sapling_tree_mut::<_, _, TreeErr>(|t| view_pool!(t, sap_notes, |cm: &[u8; 32]| sapling::Node::from_bytes(*cm).unwrap(), sapling_bytes, full))
         .map_err(|e| Fail::new("tree-access-error", format!("{step}: sapling tree access failed: {e:?}")))?;
     let orc = db
-        .with_orchard_tree_mut::<_, _, TreeErr>(|t| view_pool!(t, orc_notes, |cm: &[u8; 32]| MerkleHashOrchard::from_bytes(cm).unwrap(), orchard_bytes))
+        .with_orchard_tree_mut::<_, _, TreeErr>(|t| view_pool!(t, orc_notes, |cm: &[u8; 32]| MerkleHashOrchard::from_bytes(cm).unwrap(), orchard_bytes, full))
         .map_err(|e| Fail::new("tree-access-error", format!("{step}: orchard tree access failed: {e:?}")))?;
     let iw = db
-        .with_ironwood_tree_mut::<_, _, TreeErr>(|t| view_pool!(t, iw_notes, |cm: &[u8; 32]| MerkleHashOrchard::from_bytes(cm).unwrap(), orchard_bytes))
+        .with_ironwood_tree_mut::<_, _, TreeErr>(|t| view_pool!(t, iw_notes, |cm: &[u8; 32]| MerkleHashOrchard::from_bytes(cm).unwrap(), orchard_bytes, full))
         .map_err(|e| Fail::new("tree-access-error", format!("{step}: ironwood tree access failed: {e:?}")))?
         .ok_or_else(|| Fail::new("tree-access-error", format!("{step}: the SQLite wallet reports no Ironwood tree")))?;
 
@@ -293,11 +301,11 @@ fn run_case_opt(ctx: &Ctx, case: &Case, exclude_known: bool) -> CaseResult {
         if h.tainted_stale_annotation && exclude_known {
             return Ok(Obs::trivial().label("excluded-known:stale-annotation-after-reorg").label_if(h.flags.truncations > 0, "rewind"));
         }
-        check_trees(ctx, &mut h, &mut st, &step)?;
+        check_trees(ctx, &mut h, &mut st, &step, i % 5 == 4)?;
     }
     if h.chain.tip_height() > h.base() {
         h.scan_all(case.final_chunk)?;
-        check_trees(ctx, &mut h, &mut st, "final")?;
+        check_trees(ctx, &mut h, &mut st, "final", true)?;
     }
     st.pruning_ran = h.ledger.scanned.len() > 110;
     let f = &h.flags;
@@ -372,11 +380,11 @@ fn main() {
             |_| format!("{:?}", known_stale_annotation_case()),
         );
     }
-    ctx.run_prop_with("histories", || arb_case(22, 12), tier.pick(320, 15_000), 60, |c| run_case(&ctx, c));
+    ctx.run_prop_with("histories", || arb_case(22, 12), tier.pick(256, 15_000), 50, |c| run_case(&ctx, c));
     ctx.require_label_fraction("histories", "witness-verified", 0.4);
     ctx.require_label_fraction("histories", "rewind", 0.15);
-    ctx.require_label_fraction("histories", "retention-boundary-scanned", 0.15);
-    ctx.run_prop_with("long-chains", || arb_case(12, 100), tier.pick(48, 3_000), 40, |c| run_case(&ctx, c));
+    ctx.require_label_fraction("histories", "retention-boundary-scanned", 0.08);
+    ctx.run_prop_with("long-chains", || arb_case(12, 100), tier.pick(32, 3_000), 30, |c| run_case(&ctx, c));
     ctx.require_label_fraction("long-chains", "checkpoint-budget-reached", 0.25);
     ctx.finish();
 }
